@@ -25,6 +25,7 @@ St state(int tid);
 const void *blocked_on(int tid);                 // mutex / condvar / joined thread record
 size_t choices_used();
 size_t switches();
+void fail_next_thread_creations(int k);          // fault injection: the next k pthread_create calls inside the run fail with EAGAIN
 void advance_time_ms(long ms);                    // the wall clock seen by the code under test is virtual inside a run
 size_t points();
 size_t spurious_wakeups();                       // schedule bytes >= 128 additionally wake one parked thread without a signal
